@@ -568,7 +568,7 @@ func (st *runState) conclude(tier string, kn map[string]known, start time.Time, 
 		}
 		v := bySig[s][0]
 		path := filepath.Join(replayDir, fmt.Sprintf("%s-%016x.json", p.ID, hash64(s)))
-		rp := map[string]any{"property": p.ID, "tier": tierOf(v, tier), "seed": st.seed, "idx": v.Idx, "signature": s, "detail": v.Detail, "case": v.Case, "occurrences": a.SigCounts[s], "other_instances": bySig[s][1:]}
+		rp := map[string]any{"property": p.ID, "tier": tierOf(v, tier), "seed": st.seed, "idx": v.Idx, "history": v.History, "signature": s, "detail": v.Detail, "case": v.Case, "occurrences": a.SigCounts[s], "other_instances": bySig[s][1:]}
 		b, _ := json.MarshalIndent(rp, "", " ")
 		_ = os.WriteFile(path, b, 0o644)
 		lines = append(lines, fmt.Sprintf("VIOLATION property=%s replay=%s", p.ID, path))
@@ -674,6 +674,7 @@ func replay(args []string) int {
 		Tier      string `json:"tier"`
 		Seed      uint64 `json:"seed"`
 		Idx       int    `json:"idx"`
+		History   int    `json:"history"`
 		Signature string `json:"signature"`
 	}
 	if err := json.Unmarshal(b, &rp); err != nil {
@@ -696,7 +697,7 @@ func replay(args []string) int {
 	tmp, _ := os.CreateTemp("", "verif-replay-*.json")
 	tmp.Close()
 	defer os.Remove(tmp.Name())
-	cmd := exec.Command(bin, "worker", "-prop", rp.Property, "-tier", rp.Tier, "-seed", fmt.Sprint(rp.Seed), "-from", fmt.Sprint(rp.Idx), "-to", fmt.Sprint(rp.Idx+1), "-verbose", "-out", tmp.Name())
+	cmd := exec.Command(bin, "worker", "-prop", rp.Property, "-tier", rp.Tier, "-seed", fmt.Sprint(rp.Seed), "-from", fmt.Sprint(rp.Idx-rp.History), "-to", fmt.Sprint(rp.Idx+1), "-verbose", "-out", tmp.Name())
 	cmd.Stdout, cmd.Stderr = os.Stdout, os.Stderr
 	if err := cmd.Run(); err != nil {
 		fmt.Printf("VIOLATION property=%s replay=%s\n  (process-level failure reproduced: %v)\n", rp.Property, *file, err)
